@@ -12,7 +12,7 @@ use std::panic::{catch_unwind, AssertUnwindSafe};
 pub fn run_stream(ctx: &mut Ctx, name: &str) {
 	match name {
 		"compact" => compact_stream(ctx),
-		"enc" | "rt" | "mut" | "rand" | "exh" | "cut" | "decall" | "skip" | "count" | "limit" | "mem" | "stacks" | "mel" | "sinks" =>
+		"enc" | "rt" | "mut" | "rand" | "exh" | "cut" | "decall" | "skip" | "count" | "limit" | "mem" | "stacks" | "mel" | "sinks" | "alloc" =>
 			catalogue::run_all(ctx, name),
 		"wrapops" => wrapops_stream(ctx),
 		"len" => len_stream(ctx),
@@ -21,6 +21,7 @@ pub fn run_stream(ctx: &mut Ctx, name: &str) {
 			concat_stream(ctx);
 		},
 		"big" => big_stream(ctx),
+		"allocf4" => alloc_known_findings(ctx),
 		"ledger" => crate::ledger::ledger_stream(ctx),
 		"hist" => crate::hist::hist_stream(ctx),
 		"like" => crate::like::like_stream(ctx),
@@ -718,6 +719,17 @@ pub fn run_type<T: Cat + DecodeAll + DecodeLimit>(ctx: &mut Ctx, stream: &str, n
 				sinks_case(ctx, name, &v, &format!("enc4 {} {}", T::ty(8), val_string(&v, false)), g.rng.next());
 			}
 		},
+		"alloc" => {
+			// recursive types nest as deep as the payload says: give the decoder a deep stack
+			std::thread::scope(|sc| {
+				std::thread::Builder::new()
+					.stack_size(4 << 30)
+					.spawn_scoped(sc, || alloc_type::<T>(ctx, name, o, &mut g))
+					.unwrap()
+					.join()
+					.unwrap()
+			});
+		},
 		"exh" => {
 			let mut strings: Vec<Vec<u8>> = vec![vec![]];
 			for a in 0..=255u8 {
@@ -1370,4 +1382,163 @@ fn bulk_stream(ctx: &mut Ctx) {
 	bulk_for::<i128>(ctx, "i128");
 	bulk_for::<f32>(ctx, "f32");
 	bulk_for::<f64>(ctx, "f64");
+}
+
+// ---------------------------------------------------------------------------------------------
+// Memory requested while decoding (C09)
+// ---------------------------------------------------------------------------------------------
+
+/// Bytes of memory tolerated per input byte (largest `size_of` element per smallest encoding among
+/// the catalogue's element types is 40:1; std's growth and realloc overlap need some room).
+const MEM_PER_INPUT_BYTE: usize = 192;
+const PREALLOC: usize = 16 * 1024;
+const SLACK: usize = 8 * 1024;
+
+struct UnknownLenInput<'a> {
+	data: &'a [u8],
+	pos: usize,
+}
+impl Input for UnknownLenInput<'_> {
+	fn remaining_len(&mut self) -> Result<Option<usize>, parity_scale_codec::Error> {
+		Ok(None)
+	}
+	fn read(&mut self, into: &mut [u8]) -> Result<(), parity_scale_codec::Error> {
+		if into.len() > self.data.len() - self.pos {
+			return Err("eof".into());
+		}
+		into.copy_from_slice(&self.data[self.pos..self.pos + into.len()]);
+		self.pos += into.len();
+		Ok(())
+	}
+}
+
+fn alloc_case<T: Cat>(ctx: &mut Ctx, name: &str, bs: &[u8], depth_allowance: usize) {
+	// attribution of an abort: the request being executed
+	let hx = hex_or_dash(bs);
+	std::fs::write(&ctx.current_path, format!("{}\t{} bytes: {}\n", name, bs.len(), &hx[..hx.len().min(4000)])).ok();
+	let bound_req = PREALLOC.max(MEM_PER_INPUT_BYTE * bs.len()) + SLACK + core::mem::size_of::<T>();
+	let bound_peak = depth_allowance * PREALLOC + MEM_PER_INPUT_BYTE * bs.len() + SLACK + core::mem::size_of::<T>();
+	#[cfg(feature = "bytes-f")]
+	let shared = bytes::Bytes::copy_from_slice(bs);
+	for input_kind in 0..4 {
+		#[cfg(not(feature = "bytes-f"))]
+		if input_kind == 3 {
+			continue;
+		}
+		let (r, m) = crate::alloc::measure(|| {
+			catch_unwind(AssertUnwindSafe(|| match input_kind {
+				0 => {
+					let mut s = &bs[..];
+					T::decode(&mut s).is_ok()
+				},
+				1 => {
+					let mut u = UnknownLenInput { data: bs, pos: 0 };
+					T::decode(&mut u).is_ok()
+				},
+				2 => {
+					let mut io = parity_scale_codec::IoReader(std::io::Cursor::new(bs));
+					T::decode(&mut io).is_ok()
+				},
+				_ => {
+					#[cfg(feature = "bytes-f")]
+					{
+						parity_scale_codec::decode_from_bytes::<T>(shared.clone()).is_ok()
+					}
+					#[cfg(not(feature = "bytes-f"))]
+					{
+						false
+					}
+				},
+			}))
+		});
+		let kind = ["slice", "unknown-length input", "io reader", "shared buffer"][input_kind];
+		ctx.count("alloc:measured-decodes", 1);
+		if r.is_err() {
+			ctx.oracle_fail("C03", format!("{}: decoding {} panicked", name, hex_or_dash(&bs[..bs.len().min(40)])));
+		}
+		// oracle (C09): bounded by the input supplied, not by the claimed count
+		if m.max_request > bound_req {
+			ctx.oracle_fail("C09", format!("{} [{}]: a single allocation of {} bytes while decoding {} input bytes (bound {}): {}", name, kind, m.max_request, bs.len(), bound_req, &hex_or_dash(bs)[..hex_or_dash(bs).len().min(60)]));
+		}
+		if m.peak_live > bound_peak {
+			ctx.oracle_fail("C09", format!("{} [{}]: peak of {} live bytes while decoding {} input bytes (bound {}): {}", name, kind, m.peak_live, bs.len(), bound_peak, &hex_or_dash(bs)[..hex_or_dash(bs).len().min(60)]));
+		}
+		ctx.count("alloc:max-single-request-seen", 0);
+		let key = "alloc:largest-request-over-all-cases";
+		let cur = *ctx.counts.get(key).unwrap_or(&0);
+		if (m.max_request as u64) > cur {
+			ctx.counts.insert(key.to_string(), m.max_request as u64);
+		}
+	}
+	// the outcome itself is compared with the model (slice input)
+	if bs.len() <= 80 {
+		let req = format!("dec {} {}", T::ty(bs.len() + 1), hx);
+		let (ans, _) = dec_answer::<T>(bs);
+		ctx.emit("alloc", name, &req, &ans);
+	}
+}
+
+fn alloc_type<T: Cat>(ctx: &mut Ctx, name: &str, o: &TypeOpts, g: &mut G) {
+	if o.zero_width_elems {
+		// finding F4: zero-width element types are probed separately (see `alloc_known_findings`)
+		return;
+	}
+	let rounds = if ctx.tier_thorough { 40 } else { 6 };
+	let hostile: [u32; 8] = [1 << 16, 1 << 24, (1 << 30) - 1, 1 << 30, u32::MAX - 1, u32::MAX, 1 << 20, 1 << 28];
+	for r in 0..rounds {
+		g.budget = o.budget;
+		let v = T::gen(g);
+		let enc = v.encode();
+		// every count position: replace each byte position in turn by a hostile compact count,
+		// followed by 0..64 KiB of plausible payload (the rest of the valid encoding, repeated)
+		let positions: Vec<usize> = if enc.len() <= 12 { (0..enc.len().max(1)).collect() } else { (0..8).map(|_| g.rng.below(enc.len() as u64) as usize).collect() };
+		for pos in positions {
+			let c = hostile[(r + pos) % hostile.len()];
+			let mut bs = enc[..pos.min(enc.len())].to_vec();
+			bs.extend_from_slice(&parity_scale_codec::Compact(c).encode());
+			let tail = &enc[(pos + 1).min(enc.len())..];
+			let payload_len = match g.rng.below(5) {
+				0 => 0,
+				1 => g.rng.below(64) as usize,
+				2 => 4096,
+				3 => 20000,
+				_ => 65536,
+			};
+			while bs.len() < pos + 5 + payload_len {
+				if tail.is_empty() || g.rng.chance(1, 8) {
+					bs.push(g.rng.below(4) as u8);
+				} else {
+					bs.extend_from_slice(tail);
+				}
+				if tail.is_empty() && bs.len() > pos + 5 + payload_len {
+					break;
+				}
+			}
+			bs.truncate(pos + 5 + payload_len);
+			alloc_case::<T>(ctx, name, &bs, 8);
+		}
+		// and the untampered encoding: memory proportional to a valid input
+		alloc_case::<T>(ctx, name, &enc, 8);
+	}
+}
+
+/// Finding F4 (known): element types with an empty encoding but a non-empty footprint.
+pub fn alloc_known_findings(ctx: &mut Ctx) {
+	use std::collections::LinkedList;
+	// self-test of the instrumentation: a megabyte request must be seen
+	let (_, m) = crate::alloc::measure(|| Vec::<u8>::with_capacity(1 << 20).capacity());
+	if m.max_request < (1 << 20) || m.peak_live < (1 << 20) {
+		ctx.oracle_fail("C09", format!("allocator instrumentation inactive: a 1 MiB request was measured as {}", m.max_request));
+	}
+	ctx.count("alloc:instrumentation-selftest", 1);
+	let bs = parity_scale_codec::Compact(1u32 << 20).encode();
+	std::fs::write(&ctx.current_path, "LinkedList<()>\tF4 probe\n").ok();
+	let (_, m) = crate::alloc::measure(|| LinkedList::<()>::decode(&mut &bs[..]).map(|l| l.len()));
+	if m.peak_live > PREALLOC + MEM_PER_INPUT_BYTE * bs.len() + SLACK {
+		ctx.oracle_fail("C09", format!("F4 LinkedList<()>::decode: {} live bytes requested from {} input bytes claiming 2^20 zero-width elements", m.peak_live, bs.len()));
+	}
+	let (_, m) = crate::alloc::measure(|| Vec::<crate::derived::AllSkipped>::decode(&mut &bs[..]).map(|l| l.len()));
+	if m.peak_live > PREALLOC + MEM_PER_INPUT_BYTE * bs.len() + SLACK {
+		ctx.oracle_fail("C09", format!("F4 Vec<AllSkipped>::decode: {} live bytes requested from {} input bytes claiming 2^20 zero-width elements of non-zero size", m.peak_live, bs.len()));
+	}
 }
